@@ -33,6 +33,8 @@ type unfaithful struct {
 	level           levelInfo // of the object's selection level
 	crossParent     bool      // the object's own field is cross-context merged on its parent's level
 	crossAbove      bool      // ... or some enclosing field is
+	multiParent     bool      // the object's own field occurs >= 2 times on its parent's level (any contexts)
+	lostGuard       bool      // the object is at a concrete position, its data __typename names another type and the plan node has no PossibleTypes (a copy)
 	absentTypename  bool      // key-missing only: the plan selects the key once absent __typename entries are read as the statically known type
 	emptyPossible   bool      // possible-types only: the plan node has no PossibleTypes at all
 	planParentConds bool      // the plan has a field with this key that carries ParentOnTypeNames
@@ -103,7 +105,7 @@ func selectedByPlan(obj *resolve.Object, stack []*string) []*resolve.Field {
 	return out
 }
 
-type crossFlags struct{ parent, above bool }
+type crossFlags struct{ parent, above, multi, lostGuard bool }
 
 func (tv *tview) node(n resolve.Node, t *gast.Type, sets []gast.SelectionSet, v *jv, stack []*string, rts []string, path []any, key string, isItem bool, cf crossFlags) {
 	if n.NodeNullable() == t.NonNull {
@@ -202,6 +204,15 @@ func (tv *tview) object(obj *resolve.Object, t *gast.Type, sets []gast.Selection
 		s := x.s
 		tn = &s
 	}
+	if def.Kind == gast.Object && tn != nil && *tn != def.Name && !root {
+		// j contradicts the static type. With its guard intact the renderer rejects the object, so
+		// T's type conditions are never evaluated with the wrong name: nothing to compare. A copy
+		// that lost PossibleTypes does evaluate them: its disagreements are marked.
+		if len(obj.PossibleTypes) > 0 {
+			return
+		}
+		cf.lostGuard = true
+	}
 	stack = append(append([]*string(nil), stack...), tn)
 	rts = append(append([]string(nil), rts...), rt)
 	filled := make([]*string, len(stack))
@@ -213,6 +224,10 @@ func (tv *tview) object(obj *resolve.Object, t *gast.Type, sets []gast.Selection
 	}
 	li := tv.m.levelInfo(sets, def.Name)
 	cross := tv.m.crossMerged(sets, def.Name)
+	occCount := map[string]int{}
+	for _, oc := range tv.m.levelOccurrences(sets, def.Name) {
+		occCount[oc.key]++
+	}
 	planFields := selectedByPlan(obj, stack)
 	planFilled := map[string]bool{}
 	for _, f := range selectedByPlan(obj, filled) {
@@ -254,7 +269,7 @@ func (tv *tview) object(obj *resolve.Object, t *gast.Type, sets []gast.Selection
 			continue
 		}
 		_, crossed := cross[f.key]
-		tv.node(pf.Value, f.typ, f.sets, v.get(f.key), stack, rts, pathAppend(path, f.key), f.key, false, crossFlags{parent: crossed, above: crossed || cf.above})
+		tv.node(pf.Value, f.typ, f.sets, v.get(f.key), stack, rts, pathAppend(path, f.key), f.key, false, crossFlags{parent: crossed, above: crossed || cf.above, multi: occCount[f.key] >= 2})
 	}
 	for _, f := range planFields {
 		if !opKeys[string(f.Name)] {
@@ -267,7 +282,7 @@ func (tv *tview) object(obj *resolve.Object, t *gast.Type, sets []gast.Selection
 }
 
 func (tv *tview) mergeAttrs(u *unfaithful, obj *resolve.Object, key string, cf crossFlags, path []any) {
-	u.crossParent, u.crossAbove = cf.parent, cf.above
+	u.crossParent, u.crossAbove, u.multiParent, u.lostGuard = cf.parent, cf.above, cf.multi, cf.lostGuard
 	for _, f := range obj.Fields {
 		if string(f.Name) == key {
 			u.planHasKey = true
